@@ -87,6 +87,9 @@ pub fn panic_msg(e: Box<dyn std::any::Any + Send>) -> String {
 }
 
 pub fn quiet_panics() {
+    if std::env::var("VERIF_PANIC_VERBOSE").is_ok() {
+        return;
+    }
     std::panic::set_hook(Box::new(|_| {}));
 }
 
